@@ -350,7 +350,7 @@ func c01Sequence(res *Result, drv *DriverPool, sq []refBlock, real string) {
 	}
 	res.Count("sequence=differs")
 	res.Violate(Violation{Sig: "seq:" + strings.Join(kinds, ">") + "|" + digest(strings.Join(names, "+")), Kind: "input",
-		What: fmt.Sprintf("blocks %s placed next to each other: body differs from the merged reference fragments: %s", strings.Join(names, ", "), short(r, 500)),
+		What:  fmt.Sprintf("blocks %s placed next to each other: body differs from the merged reference fragments: %s", strings.Join(names, ", "), short(r, 500)),
 		Input: map[string]interface{}{"blocks": names, "source": composeDoc(sq)}})
 }
 
